@@ -940,6 +940,25 @@ def semantic_cases():
             else:
                 C.append(("cert-" + nm, sel, "C", "CERT",
                           cert_list(certs, tls13)))
+    # CertificateVerify labelled with the scheme of another key type (one
+    # the verifier advertised, so the label alone is not refused)
+    def cv_alg(alg):
+        def m(data):
+            d = bytearray(data)
+            if d[0] != 15 or len(d) < 8:
+                return None
+            if bytes(d[4:6]) == alg.to_bytes(2, "big"):
+                return None
+            d[4:6] = alg.to_bytes(2, "big")
+            return bytes(d)
+        return m
+    for alg in (0x0403, 0x0203, 0x0503, 0x0603, 0x0807, 0x0808, 0x0401,
+                0x0201, 0x0804, 0x0809, 0x0402, 0x0202):
+        for sel, victim in (("TLS1.2-RSA-clientauth", "S"),
+                            ("TLS1.2-ECDHE_ECDSA-clientauth-ecdsa", "S"),
+                            ("TLS1.3-RSA-clientauth", "S"),
+                            ("TLS1.3-RSA", "C"), ("TLS1.3-ECDSA", "C")):
+            C.append(("cv-alg-%04x" % alg, sel, victim, "CV", cv_alg(alg)))
     # well-formed certificates with keys on curves the library can parse
     # but has no TLS signature scheme for (made with the openssl CLI)
     for curve in ("brainpoolP320r1", "brainpoolP224r1", "secp224r1"):
